@@ -40,6 +40,8 @@ CONSTANTS Part,               \* "lines" | "mixed" | "sessions" | "c15" | "c15se
           KeyFamily,          \* c19: "all" (every subset of the key classes) or "cover" (a covering family of subsets)
           RequestStateKeptAcrossLines, \* sessions: FALSE = the code (every line is decoded into fresh state); TRUE = the decoded JSON object of an
                               \*           earlier line of the session is still there when a later plain line is dispatched
+          ConnectionRemembersToken, \* c15seq: FALSE = the code (a command is judged by the token it carries itself); TRUE = a command without a
+                              \*         token inherits the token of an earlier command of the same connection
           VerifierRemembersTokens, \* c15seq: FALSE = the code (a token is verified afresh at every use); TRUE = token strings that verified once are accepted from a cache
           RedactNeedsTLSRecord, \* c19: FALSE = the code (redaction looks at the keys only); TRUE = redaction skipped for units without a recorded TLS profile
           DumpFile            \* "" or the NDJSON file the vectors of this part are written to
@@ -588,38 +590,59 @@ W15_NoRefusal      == ~(Part = "c15" /\ ~v15.effect /\ v15.conn = "tcp" /\ v15.w
 \* One correctly signed, correctly addressed token with expiry TokExp is used several times against the same running
 \* daemon, for commands on a verifying work type over TCP and the mesh, while time passes and the daemon may restart.
 \* Whether a use is accepted depends on the moment of use only - never on the token having been accepted before.
+\* A use either carries the token itself (tok = "own") or carries none; it comes on a fresh connection or on the SAME
+\* connection as the use before it (link), for the same unit or another one.  Every command is judged by its own token only.
 TokExp  == 1                  \* the token is valid at time 0 and expired from time 1 on
 MaxNow  == 2
 SeqConns15 == {"tcp", "mesh"}
 ValidAt(t) == t < TokExp
 
-Seq15Init == [now |-> 0, cache |-> FALSE, steps |-> <<>>]
+Seq15Init == [now |-> 0, cache |-> FALSE, carry |-> FALSE, steps |-> <<>>]
 
 \* what the verifier answers at this moment; the cache is what a verifier that remembers verified strings would hold
 Accepts(st) == ValidAt(st.now) \/ (VerifierRemembersTokens /\ st.cache)
+\* a use without a token is refused - unless the connection still holds the token of an earlier command and hands it on
+AcceptsStep(st, step) ==
+  IF step.tok = "own" THEN Accepts(st)
+  ELSE ConnectionRemembersToken /\ step.link = "same" /\ st.carry /\ Accepts(st)
 
 DoSeq15(st, step) ==
   CASE step.op = "use" ->
-         [st EXCEPT !.steps = Append(@, [op |-> "use", cmd |-> step.cmd, conn |-> step.conn, at |-> st.now, effect |-> Accepts(st)]),
-                    !.cache = @ \/ ValidAt(st.now)]                 \* a full verification that succeeded
+         [st EXCEPT !.steps = Append(@, [op |-> "use", cmd |-> step.cmd, conn |-> step.conn, tok |-> step.tok, link |-> step.link, unit |-> step.unit,
+                                          at |-> st.now, effect |-> step.cmd = "status" \/ AcceptsStep(st, step)]),     \* status is not protected: always answered
+                    !.cache = @ \/ (step.tok = "own" /\ ValidAt(st.now)),               \* a full verification that succeeded
+                    !.carry = (IF step.link = "same" THEN @ ELSE FALSE) \/ step.tok = "own"]   \* what a connection that kept request state would hold
     [] step.op = "tick" ->
          [st EXCEPT !.now = IF @ < MaxNow THEN @ + 1 ELSE @,
-                    !.steps = Append(@, [op |-> "tick", cmd |-> "-", conn |-> "-", at |-> st.now, effect |-> FALSE])]
+                    !.steps = Append(@, [op |-> "tick", cmd |-> "-", conn |-> "-", tok |-> "-", link |-> "-", unit |-> "-", at |-> st.now, effect |-> FALSE])]
     [] step.op = "restart" ->
          [st EXCEPT !.cache = FALSE,                                 \* nothing the verifier learnt survives the process
-                    !.steps = Append(@, [op |-> "restart", cmd |-> "-", conn |-> "-", at |-> st.now, effect |-> FALSE])]
+                    !.carry = FALSE,
+                    !.steps = Append(@, [op |-> "restart", cmd |-> "-", conn |-> "-", tok |-> "-", link |-> "-", unit |-> "-", at |-> st.now, effect |-> FALSE])]
 
-UseSteps15 == { [op |-> "use", cmd |-> c, conn |-> k] : c \in Cmds15, k \in SeqConns15 }
-Steps15 == UseSteps15 \cup { [op |-> "tick", cmd |-> "-", conn |-> "-"], [op |-> "restart", cmd |-> "-", conn |-> "-"] }
-MaxSeqLen15 == 4
+U15(c, k, t, l, u) == [op |-> "use", cmd |-> c, conn |-> k, tok |-> t, link |-> l, unit |-> u]
+UseSteps15 == { U15(c, k, "own", "fresh", "same") : c \in Cmds15, k \in SeqConns15 }
+\* commands after which the connection is still a command session (submit and results take the connection over)
+KeepsConn15 == {"status", "cancel", "release", "force-release"}
+FollowSteps15 == { U15(c, k, t, "same", u) : c \in Cmds15, k \in SeqConns15, t \in {"own", "none"}, u \in {"same", "other"} }
+FirstSteps15 == { U15(c, k, "own", "fresh", "same") : c \in KeepsConn15, k \in SeqConns15 }
+Steps15 == UseSteps15 \cup FirstSteps15 \cup FollowSteps15
+           \cup { [op |-> "tick", cmd |-> "-", conn |-> "-", tok |-> "-", link |-> "-", unit |-> "-"],
+                   [op |-> "restart", cmd |-> "-", conn |-> "-", tok |-> "-", link |-> "-", unit |-> "-"] }
+MaxSeqLen15 == 3
+\* a follow-up on the same connection needs a previous use of the same connection kind that left the connection open
+CanFollow(st, step) ==
+  step.op # "use" \/ step.link = "fresh"
+  \/ (Len(st.steps) > 0 /\ LET p == st.steps[Len(st.steps)] IN p.op = "use" /\ p.conn = step.conn /\ p.cmd \in KeepsConn15)
 Next15Seq == /\ Len(v15.steps) < MaxSeqLen15
-             /\ \E step \in Steps15 : v15' = DoSeq15(v15, step)
+             /\ \E step \in Steps15 : CanFollow(v15, step) /\ v15' = DoSeq15(v15, step)
 
 \* the property over sequences: a command over TCP or the mesh takes effect only at a moment at which the token is valid
 NoEffectWithoutTokenSeq ==
-  Part = "c15seq" => \A i \in 1..Len(v15.steps) : v15.steps[i].op = "use" /\ v15.steps[i].effect => ValidAt(v15.steps[i].at)
+  Part = "c15seq" => \A i \in 1..Len(v15.steps) :
+     v15.steps[i].op = "use" /\ v15.steps[i].cmd # "status" /\ v15.steps[i].effect => ValidAt(v15.steps[i].at) /\ v15.steps[i].tok = "own"
 ValidTokenAcceptedEveryTime ==
-  Part = "c15seq" => \A i \in 1..Len(v15.steps) : v15.steps[i].op = "use" /\ ValidAt(v15.steps[i].at) => v15.steps[i].effect
+  Part = "c15seq" => \A i \in 1..Len(v15.steps) : v15.steps[i].op = "use" /\ v15.steps[i].tok = "own" /\ ValidAt(v15.steps[i].at) => v15.steps[i].effect
 W15Seq_NoReplayRefused ==    \* some sequence uses the token successfully and is refused with the same token later
   ~(Part = "c15seq" /\ \E i, j \in 1..Len(v15.steps) : i < j /\ v15.steps[i].op = "use" /\ v15.steps[i].effect
                                                        /\ v15.steps[j].op = "use" /\ ~v15.steps[j].effect)
@@ -627,11 +650,17 @@ W15Seq_NoReplayRefused ==    \* some sequence uses the token successfully and is
 \* export: use a; [use b | tick, use b | tick, restart, use b] for all commands and both connection kinds
 RECURSIVE FoldSeq15(_, _)
 FoldSeq15(st, steps) == IF steps = <<>> THEN st ELSE FoldSeq15(DoSeq15(st, Head(steps)), Tail(steps))
-Tick15 == [op |-> "tick", cmd |-> "-", conn |-> "-"]
-Restart15 == [op |-> "restart", cmd |-> "-", conn |-> "-"]
+Tick15 == [op |-> "tick", cmd |-> "-", conn |-> "-", tok |-> "-", link |-> "-", unit |-> "-"]
+Restart15 == [op |-> "restart", cmd |-> "-", conn |-> "-", tok |-> "-", link |-> "-", unit |-> "-"]
 SeqShapes15(a, b) == { <<a, b>>, <<a, Tick15, b>>, <<a, Tick15, Restart15, b>> }
 SeqVec15(steps) == [steps |-> FoldSeq15(Seq15Init, steps).steps]
-SeqVectors15 == UNION { { SeqVec15(q) : q \in SeqShapes15(a, b) } : a \in UseSteps15, b \in UseSteps15 }
+\* same connection: a command with the valid token, then a command with its own token (control) or WITHOUT one, for the same
+\* or another unit (after a release only another unit is left)
+SameConnVectors15 ==
+  UNION { { SeqVec15(<<a, b>>) : b \in { f \in FollowSteps15 : f.conn = a.conn /\ (a.cmd \in {"release", "force-release"} => f.unit = "other") } }
+          : a \in FirstSteps15 }
+SeqVectors15 == UNION { { SeqVec15(q) : q \in SeqShapes15(a, b) } : a \in UseSteps15, b \in UseSteps15 } \cup SameConnVectors15
+W15Seq_NoTokenlessFollowUp == ~(Part = "c15seq" /\ \E i \in 1..Len(v15.steps) : v15.steps[i].op = "use" /\ v15.steps[i].tok = "none" /\ v15.steps[i].cmd # "status" /\ ~v15.steps[i].effect)
 
 (***************************************************************************)
 (*            PART "c19" : secret parameters of remote work                *)
